@@ -18,6 +18,7 @@
 (*  "attack"  kind, sq, occ, att        att = SliderAttacks(kind, sq, occ) *)
 (*  "leaper"  kind, sq, att             knight / king tables               *)
 (*  "board"   obs, sum                  transient board: C12 invariants    *)
+(*  "matescore" pos, kind, scores, mm   mate / stalemate scores by depth   *)
 (***************************************************************************)
 EXTENDS Notation, Json, IOUtils
 
@@ -92,10 +93,31 @@ CheckUci(r) ==
           /\ (Cardinality({ r.texts[j][2] : j \in 1..Len(r.texts) }) = Len(r.texts)
                  \/ Bad("two legal moves share a UCI string", Len(r.texts)))
 
+Abs1(x) == IF x < 0 THEN 0 - x ELSE x
 CheckMirror(r) ==
   LET pos == PosOf(r.pos) IN
   /\ (PosOf(r.mir).b = Mirror(pos).b \/ Bad("harness mirrored the position wrongly", 0))
   /\ (r.a = 0 - r.b \/ Bad("static score is not colour-symmetric", <<r.a, r.b>>))
+  \* mm = the smallest magnitude of any mate score the code produced in this run (see "matescore")
+  /\ ("mm" \notin DOMAIN r \/ (Abs1(r.a) < r.mm /\ Abs1(r.b) < r.mm)
+        \/ Bad("static score not strictly below every mate score", <<r.a, r.b, r.mm>>))
+
+\* C18: scores of a checkmated position for remaining depth 0..255 (index d+1), side = who is mated;
+\* a mate with more depth remaining is strictly better for the mating side; stalemate scores 0
+CheckMateScore(r) ==
+  LET pos == PosOf(r.pos)
+      L == Legal(pos)
+      sc == r.scores
+      sign == IF pos.turn = W THEN -1 ELSE 1     \* white mated: negative scores
+  IN IF ~Consistent(pos) THEN Skip("inconsistent position")
+     ELSE IF r.kind = "stalemate"
+     THEN (Verdict(pos, L) = "stalemate" \/ Bad("harness: not a stalemate", 0))
+          /\ ((\A d \in 1..Len(sc) : sc[d] = 0) \/ Bad("stalemate does not score zero", sc))
+     ELSE /\ (Verdict(pos, L) = "checkmate" \/ Bad("harness: not a checkmate", 0))
+          /\ ((\A d \in 1..Len(sc) : sign * sc[d] > 0) \/ Bad("mate score has the wrong sign", sign))
+          /\ ((\A d \in 1..(Len(sc) - 1) : sign * sc[d + 1] > sign * sc[d])
+                \/ Bad("a mate with more depth remaining does not score strictly better for the mating side", 0))
+          /\ ((\A d \in 1..Len(sc) : Abs1(sc[d]) >= r.mm) \/ Bad("harness: mm is not the minimum mate magnitude", r.mm))
 
 CheckAttack(r) ==
   LET want == SliderAttacks(r.kind, r.sq, SeqSet(r.occ)) IN
@@ -129,6 +151,7 @@ Ok == lvl = 2 =>
         [] r.t = "attack" -> CheckAttack(r)
         [] r.t = "leaper" -> CheckLeaper(r)
         [] r.t = "board" -> CheckBoard(r)
+        [] r.t = "matescore" -> CheckMateScore(r)
         [] r.t = "panic" -> IF Consistent(PosOf(r.pos)) THEN Bad("code under test panicked", r.where)
                             ELSE Skip("inconsistent position")
         [] OTHER -> Bad("unknown record type", r.t)
